@@ -149,6 +149,9 @@ func VerifSubRequests() {
 	vK = verifParam("k", 1)
 	vMinLen = 1 // child steps must actually be issued: the claim is per translation, independent of data
 	sc, op := vPickScenario()
+	if op.sparse {
+		verifAssume(false) // nothing reaches the dependent steps of this operation: coverage cannot be observed
+	}
 	if op.known != "" {
 		verifKnown(vProp+"-"+op.known, true)
 	}
